@@ -169,7 +169,13 @@ func Gen(t *rapid.T) Case {
 				msg = rapid.SampledFrom([]string{"Login incorrect", "% Authentication failed", "Access denied"}).Draw(t, "rejectText")
 			}
 
-			c.Rounds = append(c.Rounds, Round{K: "reject", Text: msg})
+			if c.Flavour == "ssh" && rapid.IntRange(0, 3).Draw(t, "rejectIsSSHError") == 0 {
+				// the ssh client's own line after a wrong password, followed at once by its next
+				// password prompt: a recognised failure message all the same
+				c.Rounds = append(c.Rounds, Round{K: "error", Text: rapid.SampledFrom([]string{"Permission denied, please try again.", "admin@10.0.0.1: Permission denied (publickey,password)."}).Draw(t, "midError")})
+			} else {
+				c.Rounds = append(c.Rounds, Round{K: "reject", Text: msg})
+			}
 		}
 	}
 
